@@ -20,3 +20,10 @@ func init() {
 func init() {
 	props["C12"] = []Stream{{"cleaner", genCleaner}}
 }
+
+func init() {
+	props["C18"] = []Stream{{"txn", genTxn}, {"c18-oracle", genTxnFlavor("c18")}}
+	props["C10"] = []Stream{{"txn", genTxn}, {"c10-oracle", genTxnFlavor("c10")}, {"strategy", genStrat}}
+	props["C06"] = []Stream{{"txn", genTxn}, {"c06-oracle", genTxnFlavor("c06")}}
+	props["C11"] = []Stream{{"txn", genTxn}, {"c11-oracle", genTxnFlavor("c11")}}
+}
